@@ -21,6 +21,7 @@
 #include <assert.h>
 #include <ctype.h>
 #include <errno.h>
+#include <limits.h>
 #include <stdarg.h>
 #include <stdbool.h>
 #include <stddef.h>
@@ -782,7 +783,15 @@ static void scan(scanner_t *scnp)
 		VNAPROPERTY_GETCHAR(scnp);
 	    } while (isdigit(scnp->scn_cur));
 	    *scnp->scn_position = '\000';
-	    scnp->u.scn_int = strtol(scnp->scn_text, NULL, 10);
+	    {
+		long value = strtol(scnp->scn_text, NULL, 10);
+
+		if (value > INT_MAX) {	/* would wrap into another index */
+		    scnp->scn_token = T_ERROR;
+		    return;
+		}
+		scnp->u.scn_int = value;
+	    }
 	    scnp->scn_token = T_INT;
 	    return;
 	}
